@@ -174,7 +174,6 @@ void os_end_request(TaskState &t, int ret, const uint8_t *buf) {
     (void)ret; (void)buf;
     t.cur.os_active = false;
 }
-static long g_req_emitted = -1;
 // next applicable element of the current script; returns -1 when the script is exhausted (=> success)
 static int os_next_el(TaskState &t, bool for_open) {
     CurOp &c = t.cur;
@@ -194,13 +193,13 @@ static int os_next_el(TaskState &t, bool for_open) {
 static void os_terminal(TaskState &t, int term) {
     CurOp &c = t.cur;
     c.os_terminal = term;
-    os_push_req(t, g_req_emitted);
+    os_push_req(t, c.req_emitted);
     if (c.os_auto) c.os_active = false;
 }
 static void os_enter(TaskState &t) {
     CurOp &c = t.cur;
     if (!c.os_active) { os_begin_request(t); c.os_auto = true; }
-    if (c.os_calls == 0 && c.os_terminal < 0) g_req_emitted = scan_emitted(t);
+    if (c.os_calls == 0 && c.os_terminal < 0) c.req_emitted = scan_emitted(t);
 }
 // The entropy call proper. mode: 0 getrandom/syscall (returns len), 1 getentropy (returns 0), 2 read
 extern "C" long sim_os_entropy(void *buf, size_t len, int mode) {
